@@ -29,6 +29,8 @@ def bindings(shape, tier):
     names = [p[0] for p in shape if p[1] in (POK, KWO)] + ['zz']
     if tier == 'thorough':
         names += [p[0] for p in shape if p[1] in (VA, VK)] + ['yy']
+    elif any(p[1] == VK for p in shape):
+        names += [p[0] for p in shape if p[1] in (VA, VK)]     # absorbed by **kwargs although named like a star parameter
     npos = sum(1 for p in shape if p[1] in (PO, POK))
     for n in range(npos + 2):
         for r in range(len(names) + 1):
